@@ -257,13 +257,28 @@ func checkC03(c *Ctx, w *World) {
 		c.check(okOrder && everyReturnAfter(ic, call), "C03.min", "initializeConfig → enforceMinSize", p.ipos(call), "the minimum size is enforced on every path of the first configuration, after the defaults were applied", "minimum size not enforced after the defaults on every path")
 	}
 	for i, l := range loopsOf(ems) {
-		iff, ok := l.Header.Instrs[len(l.Header.Instrs)-1].(*ssa.If)
-		good := false
-		if ok {
-			m := ltAtom("below", lenOfField("gcpBalancer.scRefs"), convOf(callTo(".GetMinSize")))
-			if okm, neg := m.match(iff.Cond); okm && !neg && l.Blocks[l.Header.Succs[0]] {
-				good = true
+		// the loop goes round exactly while the pool is below the minimum and the last creation succeeded: every back edge
+		// implies len(scRefs) < GetMinSize(); below the minimum the loop is left only after a failed creation
+		below := ltAtom("below", lenOfField("gcpBalancer.scRefs"), convOf(callTo(".GetMinSize")))
+		added := boolAtom("added", func(v ssa.Value) bool {
+			call, isC := stripConv(v).(*ssa.Call)
+			return isC && isCallTo(call, add, p)
+		})
+		mcs := newCondSpace(ems, recOf(below, added), "below", "added")
+		back := mcs.False()
+		for _, lt := range l.Latch {
+			for bi, sb := range lt.Succs {
+				if sb == l.Header {
+					back = or(back, mcs.EdgeCond(lt, bi))
+				}
 			}
+		}
+		good := mcs.Seen("below") && mcs.Satisfiable(back)
+		if imp, _ := mcs.Implies(back, mcs.Atom("below")); !imp {
+			good = false
+		}
+		if imp, _ := mcs.Implies(and(and(mcs.ReachBlock(l.Header), mcs.Atom("below")), mcs.Not(back)), mcs.Not(mcs.Atom("added"))); !imp {
+			good = false
 		}
 		c.check(good, "C03.min", fmt.Sprintf("enforceMinSize loop#%d", i+1), p.ipos(l.Header.Instrs[0]), "iterates while len(scRefs) < GetMinSize()", "the minimum-size loop does not compare the pool size with minSize")
 		n := len(pl.callsIn(ems, add))
